@@ -48,7 +48,13 @@ def criteria_giles(alpha: float, ml: np.array, rmse: float) -> bool:
     :return: true if the convergence criteria has been met
     """
     theta = 0.25  # same split of rmse**2 as in compute_mc_paths_giles: theta for the squared bias, 1 - theta for the variance
-    rem = max(ml[-1], ml[-2] / 2**alpha, ml[-3] / 2 ** (2 * alpha)) / (2**alpha - 1)
+    # extrapolate from the last (up to) three levels: there are fewer when initial_level < 2
+    rem = ml[-1]
+    if len(ml) >= 2:
+        rem = max(rem, ml[-2] / 2**alpha)
+    if len(ml) >= 3:
+        rem = max(rem, ml[-3] / 2 ** (2 * alpha))
+    rem = rem / (2**alpha - 1)
     return rem <= np.sqrt(theta) * rmse
 
 
